@@ -351,8 +351,18 @@ class Unit:
         else:
             ty, fn = None, name
         try:
-            loc = s.find_fn(ty, fn, impl_re=opts.get('impl'), nth=int(opts['nth']) if 'nth' in opts else None)
-        except ScanError as e:
+            if 'block' in opts:
+                # R12 block extraction: the brace block following the anchor regex, lifted into a function
+                mm = re.search(opts['block'], s.text)
+                if not mm:
+                    raise ScanError('block anchor `%s` not found in %s' % (opts['block'], rel))
+                bo = s.m.index('{', mm.end())
+                if s.m[mm.end():bo].strip():
+                    raise ScanError('block anchor `%s`: no block directly after the anchor' % opts['block'])
+                loc = dict(header=None, start=bo, fn_kw=mm.start(), body_open=bo, body_close=match_close(s.m, bo))
+            else:
+                loc = s.find_fn(ty, fn, impl_re=opts.get('impl'), nth=int(opts['nth']) if 'nth' in opts else None)
+        except (ScanError, ValueError) as e:
             raise Undecided('anchor lost: %s' % e)
         rec = FnRec()
         emitted_name = opts.get('as', fn)
